@@ -231,6 +231,8 @@ class Effects:
                         continue
                     while t0[0] == "upd":
                         t0 = t0[1]
+                    if t0 == ("param", host_param):
+                        return False, "the new lists are given to the visited node instead of its copy: the copy that the base generic_visit edits in place still holds the original's list objects, so the edits land in every node that shares them"
                     if t0 != base:
                         continue
                 conds = [(x_, p_) for x_, p_ in _Facts(host_fa, s, expand=False).atoms if any(y_ is x_ or True for y_ in [0]) and any(isinstance(z_, ast.Name) and z_.id in (vvar, fvar) for z_ in ast.walk(x_))]
